@@ -17,9 +17,10 @@ if __name__ == '__main__':
 import vf
 
 PROP = 'C11'
-QUICK = ['gen/MC_C11atoms.cfg', 'gen/MC_C11uneval.cfg', 'gen/MC_C11refs.cfg', 'gen/MC_C11nest1.cfg', 'gen/MC_C11pairs_q.cfg']
+QUICK = ['gen/MC_C11atoms_q.cfg', 'gen/MC_C11uneval_q.cfg', 'gen/MC_C11refs_q.cfg', 'gen/MC_C11nest1_q.cfg', 'gen/MC_C11pairs_q.cfg']
 CFG = {'quick': QUICK,
-       'thorough': QUICK + ['gen/MC_C11pairs_t.cfg', 'gen/MC_C11uneval2.cfg', 'gen/MC_C11sib.cfg', 'gen/MC_C11triples.cfg', 'gen/MC_C11nest2.cfg']}
+       'thorough': QUICK + ['gen/MC_C11pairs_t.cfg', 'gen/MC_C11uneval2_t.cfg', 'gen/MC_C11uneval3_t.cfg', 'gen/MC_C11sib_t.cfg', 'gen/MC_C11triples_t.cfg',
+                            'gen/MC_C11nest2_t.cfg', 'gen/MC_C11refs2_t.cfg']}
 IDENT_CFG = 'gen/MC_C11ident.cfg'      # model-internal identities, no emission
 BASE_CFG = 'gen/MC_C11base.cfg'
 VALID_CFG = 'gen/MC_C11valid.cfg'
@@ -100,24 +101,28 @@ def refcheck(tier, sample=0, seed=0, out=None):
 
 
 def validate_spec(rep):
-    """the spec reproduces the JSON-Schema-Test-Suite verdicts for the covered vocabulary (TLC, no emission)"""
-    if not os.path.exists(os.path.join(vf.SPEC, VALID_CFG)):
-        return
-    r = vf.tlc_check('gen/MC_C11valid', VALID_CFG, timeout=1500)
-    if r['rc'] != 0:
-        raise vf.InfraError('spec validation against the JSON-Schema-Test-Suite failed:\n%s' % r['tail'][-3000:])
+    """(a) the spec reproduces the JSON-Schema-Test-Suite verdicts for the covered vocabulary, (b) the algebraic identities
+    of the in-place applicators hold in the model (TLC, no emission; cached by the hash of the modules involved)"""
+    try:
+        _, r = vf.tlc_gen('gen/MC_C11valid', VALID_CFG, timeout=1500)
+    except vf.InfraError as e:
+        raise vf.InfraError('spec validation against the JSON-Schema-Test-Suite failed:\n%s' % str(e)[-3000:])
     rep.add_tlc(r)
     rep.notes.append('spec validation: JsonSchema.tla reproduces the JSON-Schema-Test-Suite corpus (MC_C11valid, %d test groups)' % max(0, r['distinct'] - 1))
-    r = vf.tlc_check('gen/MC_C11', IDENT_CFG, timeout=1500)
-    if r['rc'] != 0:
-        raise vf.InfraError('model-internal identities of JsonSchema.tla violated (MC_C11ident):\n%s' % r['tail'][-3000:])
+    try:
+        _, r = vf.tlc_gen('gen/MC_C11', IDENT_CFG, timeout=1500)
+    except vf.InfraError as e:
+        raise vf.InfraError('model-internal identities of JsonSchema.tla violated (MC_C11ident):\n%s' % str(e)[-3000:])
     rep.add_tlc(r)
+    rep.notes.append('model-internal identities (not not s, allOf/anyOf/oneOf[s], if s then true else false, reference transparency) hold on %d schemas' % r['distinct'])
 
 
 def setup():
     vf.build('c11', ['c11.cpp'])
     base_file()
     gens('quick')
+    vf.tlc_gen('gen/MC_C11valid', VALID_CFG, timeout=1500)
+    vf.tlc_gen('gen/MC_C11', IDENT_CFG, timeout=1500)
 
 
 def run(tier):
@@ -150,16 +155,19 @@ def run(tier):
     cov = rep.coverage
     cov['traces_validated_against_impl'] = totals.get('cases', 0)
     cov['evaluations'] = totals.get('checks', 0)
-    cov['distinct_nontrivial'] = totals.get('instances', 0)
+    cov['distinct_nontrivial'] = totals.get('instances', 0)     # distinct (dialect, schema, instance) triples executed against the library
     cov['exhaustive'] = True
     cov['rule'] = ('per dialect (Drafts 4, 6, 7, 2019-09, 2020-12): every schema produced by the grammar plans of spec/gen/MC_C11.tla '
                    '(atoms: one keyword from the full alphabet; nest1: one keyword then one Nest through every in-place / child / reference wrapper; '
-                   'uneval: annotation-producing keyword, in-place wrapper, unevaluated* keyword; refs: definitions, references, anchors, recursion) x '
+                   'pairs: two sibling keywords; uneval: annotation-producing keyword, in-place wrapper, unevaluated* keyword; refs: definitions, references, '
+                   'anchors, recursion; thorough adds triples, two Nest levels, siblings after Nest, doubly nested unevaluated*, references under nesting) x '
                    'every instance of the base universe and the instances steered from the constants of the schema (c-1, c, c+1, enum/const values, '
                    'required members present/absent, one level down through every applicator) x 6 presentations (json, ojson, member order reversed / '
-                   'alternating, "$schema" vs default_version, verdict-neutral options) x entry points; one case = one (dialect, schema)')
+                   'alternating, "$schema" vs default_version, verdict-neutral options) x entry points; one case = one (dialect, schema); '
+                   'distinct_nontrivial counts the distinct (dialect, schema, instance) triples with a defined verdict that were executed, evaluations '
+                   'counts the individual library calls compared')
     cov['bounds'] = {c: open(os.path.join(vf.SPEC, c)).read().split('CONSTANTS')[1].split() for c in CFG[tier]}
-    cov['samples'] = vf.sample_lines(g[0][0], 2) + vf.sample_lines(g[2][0], 1)
+    cov['samples'] = vf.sample_lines(g[0][0], 2) + vf.sample_lines(g[1][0], 1)
     cov['dont_care_cases'] = totals.get('dontcare', 0)
     rep.assumptions += ['numbers are small integers; strings are code-point sequences; regular expressions, format, content*, remote references, '
                         '$dynamicRef/$recursiveRef and base-URI changing $id are outside the modelled vocabulary',
